@@ -32,7 +32,9 @@ pub struct BinDictResolver {
 impl BinDictResolver {
     pub fn new<D: DictionaryAccess>(dict: D) -> SudachiResult<Self> {
         let lex = dict.lexicon();
-        let size = lex.size();
+        // only words of the system dictionary can be referenced as (0, id),
+        // the dictionary can already contain other user dictionaries
+        let size = lex.num_system_words();
         let mut index: HashMap<String, Vec<(u16, Option<String>, WordId)>, FxBuildHasher> =
             HashMap::default();
         for id in 0..size {
